@@ -348,7 +348,7 @@ func netStreams(c *mon.Ctx, h *hostile.Harness) {
 			{"request:getLastBlock", "req", p2p.VerifEncodeRequest(id, lsync.RPCEndpointGetLastBlock, nil)},
 			{"response:getBlocksFromId", "res", p2p.VerifEncodeResponse(id, lsync.RPCEndpointGetBlocksFromID, w.n.Tip().Encode(), "")},
 		}
-		b := bases[k.Index%len(bases)]
+		b := bases[r.Intn(len(bases))]
 		sm, _ := hostile.StructureMutants(b.data)
 		r.Shuffle(len(sm), func(i, j int) { sm[i], sm[j] = sm[j], sm[i] })
 		muts := []hostile.Mutant{{Class: "valid", Data: b.data}}
